@@ -606,6 +606,8 @@ fn real_startup_case(
     let config = cfg.config();
     let storage = StorageSystem::new(config.storage_uri.clone());
     let view = StorageSystem::new(config.storage_uri.clone());
+    // everything claimed before this instant was claimed before the kill
+    let t_start_q = w_now_ms();
     let mut startup = match StartupManager::new(
         config, storage, rt.handle().clone()
     ) {
@@ -621,7 +623,7 @@ fn real_startup_case(
         Ok(x) => x,
         Err(e) => { r.inconclusive(format!("promote: {e}")); return None }
     };
-    let state = |view: &StorageSystem| -> (Vec<(u128, String)>, Vec<String>) {
+    let state = |view: &StorageSystem| -> (Vec<(u128, String)>, Vec<(u128, String)>) {
         let kv = match view.open(Ident::from_str("tasks").unwrap()) {
             Ok(kv) => kv, Err(_) => return (vec![], vec![]),
         };
@@ -632,31 +634,48 @@ fn real_startup_case(
                     Some((ts.parse().ok()?, name.to_string()))
                 }).collect()
         };
-        (l("pending"), l("running").into_iter().map(|x| x.1).collect())
+        (l("pending"), l("running"))
     };
     let recurring = [
         "all_cas_republish_if_needed", "all_cas_renew_objects_if_needed",
         "update_stored_snapshots", "sync_a_with_parent_ta",
         "sync_b_with_parent_a",
     ];
-    // bounded progress: the real scheduler gets 45 s of wall time
+    // bounded progress, decided on the queue's state and not on the clock:
+    // the scheduler is watched for up to 60 s of wall time; the verdict is
+    // "violated" only when the queue is IDLE (nothing due, nothing claimed
+    // since the start) and yet an entry claimed before the kill is still
+    // in `running` or a recurring task is missing. Still busy at the end of
+    // the watch = inconclusive.
     let start = std::time::Instant::now();
-    let mut verdict: Option<(Vec<String>, Vec<String>)> = None;
+    let mut last: Option<(Vec<String>, Vec<String>, bool)> = None;
     let mut calm = 0;
-    while start.elapsed() < std::time::Duration::from_secs(45) {
+    let mut idle_bad = 0;
+    while start.elapsed() < std::time::Duration::from_secs(60) {
         let (pending, running) = state(&view);
         let missing: Vec<String> = recurring.iter()
             .filter(|n| !pending.iter().any(|p| &p.1 == *n)
-                        && !running.iter().any(|x| x == *n))
+                        && !running.iter().any(|x| &x.1 == *n))
             .map(|s| s.to_string()).collect();
         let now = w_now_ms();
         let due = pending.iter().filter(|p| p.0 <= now).count();
-        if running.is_empty() && missing.is_empty() && due == 0 {
+        let stale: Vec<String> = running.iter()
+            .filter(|x| x.0 < t_start_q).map(|x| x.1.clone()).collect();
+        let fresh_running = running.len() - stale.len();
+        let idle = due == 0 && fresh_running == 0;
+        last = Some((stale.clone(), missing.clone(), idle));
+        if idle && stale.is_empty() && missing.is_empty() {
             calm += 1;
-            if calm >= 3 { verdict = Some((vec![], vec![])); break }
+            if calm >= 3 { break }
         } else {
             calm = 0;
-            verdict = Some((running, missing));
+        }
+        if idle && (!stale.is_empty() || !missing.is_empty()) {
+            idle_bad += 1;
+            // idle and wrong for 5 s: nothing will change any more
+            if idle_bad >= 16 { break }
+        } else {
+            idle_bad = 0;
         }
         std::thread::sleep(std::time::Duration::from_millis(300));
     }
@@ -665,9 +684,9 @@ fn real_startup_case(
     drop(rt);
     r.eval();
     r.count("real_startups", 1);
-    match verdict {
-        Some((running, missing)) if running.is_empty() && missing.is_empty() => {}
-        Some((running, missing)) => {
+    match last {
+        Some((stale, missing, _)) if stale.is_empty() && missing.is_empty() => {}
+        Some((stale, missing, true)) => {
             let sig = if !missing.is_empty() {
                 "real-start-up:recurring-task-missing"
             } else {
@@ -676,12 +695,18 @@ fn real_startup_case(
             return Some((
                 format!("{sig}:{}", if with_start_task { "start-task-was-running" }
                                     else { "k-running" }),
-                format!("daemon killed with {claimed:?} running; 45 s after \
-                         the real start-up (run_scheduler + scheduler \
-                         thread): still running {running:?}, recurring \
-                         tasks not scheduled {missing:?}"),
+                format!("daemon killed with {claimed:?} running; after the \
+                         real start-up (run_scheduler + scheduler thread) \
+                         the queue is idle, yet still in 'running' from \
+                         before the kill: {stale:?}, recurring tasks not \
+                         scheduled: {missing:?}"),
                 wit,
             ))
+        }
+        Some((stale, missing, false)) => {
+            r.inconclusive(format!("real start-up still busy after 60 s \
+                (stale {stale:?}, missing {missing:?})"));
+            return None
         }
         None => { r.inconclusive("real start-up: no observation"); return None }
     }
